@@ -172,7 +172,10 @@ class MethodToFunction(ast.NodeTransformer):
                 not (isinstance(f.value, ast.Name) and f.value.id in ("np", "numpy")):
             if f.attr in ("min", "max", "ravel") and node.args:
                 return node
-            return ast.Call(func=ast.Attribute(value=ast.Name(id="np", ctx=ast.Load()), attr=f.attr, ctx=ast.Load()), args=[f.value] + node.args, keywords=[])
+            args = node.args
+            if f.attr == "reshape" and len(args) > 1:
+                args = [ast.Tuple(elts=list(args), ctx=ast.Load())]          # x.reshape(a, b) is np.reshape(x, (a, b))
+            return ast.Call(func=ast.Attribute(value=ast.Name(id="np", ctx=ast.Load()), attr=f.attr, ctx=ast.Load()), args=[f.value] + args, keywords=[])
         return node
 
 
@@ -638,7 +641,8 @@ class SplitChain(ast.NodeTransformer):
 EXTRA = {"demorgan": DeMorgan, "nest-and": NestAnd, "merge-nested": MergeNested, "split-or": SplitOr, "flag-guard": FlagGuard, "any-all-dual": AnyAllDual,
          "comp-to-loop": CompToLoop, "return-temp": ReturnTemp, "ifexp-to-if": IfExpToIf, "kwargs-dict": KwargsDict, "star-args": StarArgs, "split-chain": SplitChain}
 
-COMPOSED = ("keywordize", "rename", "commute", "invert-if", "yoda", "method-to-function", "else-after-return", "reverse-keywords", "fstring", "unpack-to-index")
+COMPOSED = ("keywordize", "rename", "commute", "invert-if", "yoda", "method-to-function", "else-after-return", "reverse-keywords", "fstring", "unpack-to-index",
+            "demorgan", "split-or", "flag-guard", "any-all-dual", "comp-to-loop", "return-temp", "kwargs-dict", "split-chain")
 
 
 def transformed(kind, root="/repo/verde", texts=None):
